@@ -1,5 +1,9 @@
-// c06: correspondence stream for Int arithmetic. Calls value.*Val on Elk Ints built as
+// c06: correspondence stream for Int arithmetic. Calls value.*Val (the functions behind the
+// VM's generic opcodes, typed opcodes and the constant folder) and value.*Ints (the `op@1`
+// overloads reached by explicit method calls, ops suffixed ".i") on Elk Ints built as
 // SmallInt or *BigInt and prints the observed result in the model's vocabulary.
+// Input line: "<op> <repr_a> <a> <repr_b> <b>". A result line ends with " MUT" when the call
+// changed one of its operands (BigInts are shared references, so that is observable in Elk).
 package main
 
 import (
@@ -39,6 +43,12 @@ func show(v value.Value, err value.Value) string {
 	if v.IsSmallInt() {
 		return fmt.Sprintf("ok S %d", int64(v.AsSmallInt()))
 	}
+	if v.IsTrue() {
+		return "ok T"
+	}
+	if v.IsFalse() {
+		return "ok F"
+	}
 	if v.IsReference() {
 		if b, ok := v.AsReference().(*value.BigInt); ok {
 			return "ok B " + b.ToGoBigInt().String()
@@ -46,6 +56,8 @@ func show(v value.Value, err value.Value) string {
 	}
 	return "other " + v.Inspect()
 }
+
+func u(v value.Value) (value.Value, value.Value) { return v, value.Undefined }
 
 func apply(op string, a, b value.Value) (value.Value, value.Value) {
 	switch op {
@@ -59,8 +71,82 @@ func apply(op string, a, b value.Value) (value.Value, value.Value) {
 		return value.DivideVal(a, b)
 	case "mod":
 		return value.ModuloVal(a, b)
+	case "pow":
+		return value.ExponentiateVal(a, b)
+	case "neg":
+		return u(value.NegateVal(a))
+	case "gt":
+		return value.GreaterThanVal(a, b)
+	case "ge":
+		return value.GreaterThanEqualVal(a, b)
+	case "lt":
+		return value.LessThanVal(a, b)
+	case "le":
+		return value.LessThanEqualVal(a, b)
+	case "eq":
+		return u(value.EqualVal(a, b))
+	case "cmp":
+		return value.CompareVal(a, b)
+	case "shl":
+		return value.LeftBitshiftVal(a, b)
+	case "shr":
+		return value.RightBitshiftVal(a, b)
+	case "and":
+		return value.BitwiseAndVal(a, b)
+	case "or":
+		return value.BitwiseOrVal(a, b)
+	case "xor":
+		return value.BitwiseXorVal(a, b)
+	case "andnot":
+		return value.BitwiseAndNotVal(a, b)
+	// the Int-only entry points (method overloads `op@1`, typed Int code)
+	case "add.i":
+		return u(value.AddInts(a, b))
+	case "sub.i":
+		return u(value.SubtractInts(a, b))
+	case "mul.i":
+		return u(value.MultiplyInts(a, b))
+	case "div.i":
+		return value.DivideInts(a, b)
+	case "mod.i":
+		return value.ModuloInts(a, b)
+	case "pow.i":
+		return u(value.ExponentiateInts(a, b))
+	case "neg.i":
+		return u(value.NegateInt(a))
+	case "gt.i":
+		return u(value.BoolVal(value.GreaterThanInts(a, b)))
+	case "ge.i":
+		return u(value.BoolVal(value.GreaterThanEqualInts(a, b)))
+	case "lt.i":
+		return u(value.BoolVal(value.LessThanInts(a, b)))
+	case "le.i":
+		return u(value.BoolVal(value.LessThanEqualInts(a, b)))
+	case "eq.i":
+		return u(value.BoolVal(value.EqualInts(a, b)))
+	case "cmp.i":
+		return u(value.CompareInts(a, b).ToValue())
+	case "shl.i":
+		return u(value.LeftBitshiftInts(a, b))
+	case "shr.i":
+		return u(value.RightBitshiftInts(a, b))
+	case "and.i":
+		return u(value.BitwiseAndInts(a, b))
+	case "or.i":
+		return u(value.BitwiseOrInts(a, b))
+	case "xor.i":
+		return u(value.BitwiseXorInts(a, b))
+	case "andnot.i":
+		return u(value.BitwiseAndNotInts(a, b))
 	}
 	panic("unknown op " + op)
+}
+
+func bigOf(v value.Value) *big.Int {
+	if v.IsSmallInt() {
+		return big.NewInt(int64(v.AsSmallInt()))
+	}
+	return new(big.Int).Set(v.AsReference().(*value.BigInt).ToGoBigInt())
 }
 
 func run(input string) string {
@@ -70,8 +156,48 @@ func run(input string) string {
 	return hx.Guard(func() string {
 		av, bv := mk(f[1], a), mk(f[3], b)
 		r, e := apply(f[0], av, bv)
-		return show(r, e)
+		s := show(r, e)
+		if bigOf(av).Cmp(a) != 0 || bigOf(bv).Cmp(b) != 0 {
+			s += " MUT"
+		}
+		return s
 	})
+}
+
+var arith = []string{"add", "sub", "mul", "div", "mod"}
+var cmps = []string{"gt", "ge", "lt", "le", "eq", "cmp"}
+var bits = []string{"and", "or", "xor", "andnot"}
+
+// shift amounts: around 0 and the word size, a few hundred bits, and amounts that no
+// longer fit a machine word (only generated where the exact result is representable)
+func shiftAmount(r *hx.Rng) *big.Int {
+	switch r.Below(6) {
+	case 0:
+		return big.NewInt(int64(r.Range(-3, 3)))
+	case 1:
+		return big.NewInt(int64(hx.Pick(r, []int{61, 62, 63, 64, 65, 66, 127, 128, 129}) * (1 - 2*r.Below(2))))
+	case 2:
+		return big.NewInt(int64(r.Range(-300, 300)))
+	case 3:
+		return big.NewInt(int64(r.Range(-70, 70)))
+	case 4:
+		return r.BoundaryInt()
+	default:
+		return r.BigBits(r.Range(60, 90))
+	}
+}
+
+// the exact result must fit in memory: an effective left shift of a non-zero value is
+// limited to 4096 bits
+func shiftOK(op string, a, n *big.Int) bool {
+	if a.Sign() == 0 {
+		return true
+	}
+	left := new(big.Int).Set(n)
+	if op == "shr" {
+		left.Neg(left)
+	}
+	return left.Cmp(big.NewInt(4096)) <= 0
 }
 
 func main() {
@@ -81,7 +207,6 @@ func main() {
 		hx.Emit(fmt.Sprintf("c%d", i), in, run(in))
 	}
 	r := hx.NewRng(o.Seed)
-	ops := []string{"add", "sub", "mul", "div", "mod"}
 	for i := 0; i < o.N; i++ {
 		var a, b *big.Int
 		switch r.Below(4) {
@@ -94,7 +219,53 @@ func main() {
 		default:
 			a, b = r.BigBits(r.Range(1, 70)), r.BoundaryInt()
 		}
-		in := fmt.Sprintf("%s %s %s %s %s", hx.Pick(r, ops), reprOf(a), a, reprOf(b), b)
+		var op string
+		switch r.Below(8) {
+		case 0, 1, 2:
+			op = hx.Pick(r, arith)
+		case 3:
+			op = hx.Pick(r, cmps)
+			if r.Chance(1, 4) {
+				b = new(big.Int).Add(a, big.NewInt(int64(r.Range(-1, 1))))
+			}
+		case 4:
+			op = hx.Pick(r, bits)
+		case 5, 6:
+			op = hx.Pick(r, []string{"shl", "shr"})
+			b = shiftAmount(r)
+			if !shiftOK(op, a, b) {
+				if r.Chance(1, 2) {
+					a = big.NewInt(0)
+				} else {
+					b.Neg(b)
+				}
+			}
+		default:
+			if r.Chance(1, 2) {
+				op = "neg"
+				b = big.NewInt(0)
+				if r.Chance(1, 3) {
+					a = new(big.Int).Lsh(big.NewInt(1), 63)
+					a.Add(a, big.NewInt(int64(r.Range(-1, 1))))
+					if r.Chance(1, 2) {
+						a.Neg(a)
+					}
+				}
+			} else {
+				op = "pow"
+				b = big.NewInt(int64(r.Range(-3, 70)))
+				if r.Chance(1, 2) && a.BitLen() > 8 {
+					a = big.NewInt(int64(r.Range(-12, 12)))
+				}
+				if a.BitLen() > 130 {
+					a = r.BigBits(r.Range(1, 130))
+				}
+			}
+		}
+		if r.Chance(1, 3) {
+			op += ".i"
+		}
+		in := fmt.Sprintf("%s %s %s %s %s", op, reprOf(a), a, reprOf(b), b)
 		hx.Emit(fmt.Sprintf("g%d", i), in, run(in))
 	}
 }
